@@ -88,7 +88,7 @@ theorem C11_roundtrip_response (E : AEAD) {S C : Ctx} (hSC : Sends S C)
         observe := (findOpt 6 m.opts).map (fun b => (beToNat b : Int)),
         payload := m.payload },
       rc) := by
-  obtain ⟨pt, nonce, hpt, hpay, hcode, hobs, hrp⟩ := recv_response (B := C) hSC hk hp h
+  obtain ⟨pt, nonce, hpt, hpay, hcode, hobs, _, hrp⟩ := recv_response (B := C) hSC hk hp h
   have hd : E.dec C.recipientKey nonce (aad S.algValue r.kid r.piv) P.outer.payload = some pt := by
     rw [hpay, ← hSC.key]; exact E.correct _ _ _ _
   have hnr := (protect_response_shape h).1
@@ -342,7 +342,7 @@ theorem C11_tamper_response_other_key (E : AEAD) {S C : Ctx} (hSC : Sends S C)
     (hk : rc.kid = r.kid) (hp : rc.piv = r.piv)
     (h : protect E S seq m (some r) = .ok P) (k' : Bytes) (hk' : k' ≠ S.senderKey) :
     unprotect E { C with recipientKey := k' } (some rc) P.outer = .error .protectionInvalid := by
-  obtain ⟨pt, nonce, _, hpay, _, _, hrp⟩ := recv_response (B := C) hSC hk hp h
+  obtain ⟨pt, nonce, _, hpay, _, _, _, hrp⟩ := recv_response (B := C) hSC hk hp h
   rw [← recvParams_key_irrel E.tagBytes C k'] at hrp
   apply unprotect_of_dec_none hrp
   rw [hpay]
@@ -389,7 +389,7 @@ theorem C11_tamper_response_ciphertext_partial (E : AEAD) {S C : Ctx} (hSC : Sen
     (h : protect E S seq m (some r) = .ok P) (c' : Bytes)
     (hforge : ∀ nonce pt', c' ≠ E.enc S.senderKey nonce (aad S.algValue r.kid r.piv) pt') :
     unprotect E C (some rc) { P.outer with payload := c' } = .error .protectionInvalid := by
-  obtain ⟨pt, nonce, _, _, _, _, hrp⟩ := recv_response (B := C) hSC hk hp h
+  obtain ⟨pt, nonce, _, _, _, _, _, hrp⟩ := recv_response (B := C) hSC hk hp h
   rcases recvParams_payload_irrel (c := c') hrp with h1 | h1
   · apply unprotect_of_dec_none h1
     cases hd : E.dec C.recipientKey nonce (aad S.algValue r.kid r.piv) c' with
@@ -399,5 +399,215 @@ theorem C11_tamper_response_ciphertext_partial (E : AEAD) {S C : Ctx} (hSC : Sen
       rw [← hSC.key] at this
       exact absurd this (hforge nonce p')
   · exact unprotect_of_recv_error h1
+
+/-- Witness that the full ciphertext clause is false: a re-encryption of any other well-formed
+plaintext under the same key, nonce and AAD — something only a key holder can produce — is a
+changed ciphertext that is accepted. -/
+theorem C11_reencryption_accepted (E : AEAD) {A B : Ctx} (hA : A.wf) (hAB : Sends A B)
+    {seq : Nat} {m : Msg} {P : Protected} (h : protect E A seq m none = .ok P)
+    {nonce pt' : Bytes} {inner' : Msg}
+    (hn : constructNonce A.ivBytes A.commonIv (natToBE 5 seq) A.senderId = some nonce)
+    (hp : parsePlaintext pt' = some inner') :
+    ∃ u r,
+      unprotect E B none
+        { P.outer with
+          payload := E.enc A.senderKey nonce (aad A.algValue A.senderId (shortPiv seq)) pt' } =
+        .ok (u, r) ∧
+      u.code = inner'.code ∧ u.payload = inner'.payload := by
+  obtain ⟨pt, nonce0, _, hn0, _, _, hrp⟩ := recv_request (B := B) hA hAB h
+  rw [hn] at hn0; cases hn0
+  have hl : E.tagBytes + 1 ≤
+      (E.enc A.senderKey nonce (aad A.algValue A.senderId (shortPiv seq)) pt').length := by
+    have := E.tagLen A.senderKey nonce (aad A.algValue A.senderId (shortPiv seq)) pt'
+    have := parsePlaintext_ne_nil hp
+    omega
+  have hrp' := recvParams_payload_long hrp hl
+  have hd : E.dec B.recipientKey nonce (aad A.algValue A.senderId (shortPiv seq))
+      (E.enc A.senderKey nonce (aad A.algValue A.senderId (shortPiv seq)) pt') = some pt' := by
+    rw [← hAB.key]; exact E.correct _ _ _ _
+  exact ⟨_, _, unprotect_of_dec_some hrp' hd hp, rfl, rfl⟩
+
+-- ## What is *not* a change of value (and is accepted, by the code as by the model) --------------
+
+/-- A response Partial IV with a leading zero byte has the same numeric value; only the
+request's Partial IV is in the AAD (RFC 8613 §5.4), so the rewritten response is still accepted
+and yields the same message.  This is the boundary of `C11_tamper_response_piv`. -/
+theorem C11_response_piv_leading_zero_accepted (E : AEAD) {S C : Ctx} (hSC : Sends S C)
+    {seq : Nat} {m : Msg} {r rc : ReqId} {P : Protected}
+    (hk : rc.kid = r.kid) (hp : rc.piv = r.piv) (hown : r.canReuse = false)
+    (hshort : (shortPiv seq).length < 5)
+    (h : protect E S seq m (some r) = .ok P)
+    (opts' : List Opt) (opt' : Bytes) (hopt : findOpt 9 opts' = some opt')
+    (hobs : findOpt 6 opts' = none)
+    (hu : uncompress opt' = some (respUnprot S (some (0 :: shortPiv seq)))) :
+    unprotect E C (some rc) { P.outer with opts := opts' } = .ok (
+      { code := m.code,
+        opts := m.opts.filter (fun o => o.1 != 6),
+        observe := (findOpt 6 m.opts).map (fun b => (beToNat b : Int)),
+        payload := m.payload },
+      rc) := by
+  obtain ⟨pt, nonce, hpt, hpay, hcode, _, hmode, hrp⟩ := recv_response (B := C) hSC hk hp h
+  obtain ⟨_, _, _, _, _, _, _, _, _, hlen, _⟩ := recvParams_ok_inv hrp
+  have hn0 : constructNonce C.ivBytes C.commonIv (0 :: shortPiv seq) C.recipientId = some nonce := by
+    rcases hmode with ⟨hcr, _⟩ | ⟨_, _, hn1⟩
+    · rw [hown] at hcr; cases hcr
+    · rw [constructNonce_padPiv_congr (padPiv_zero_cons hshort)]; exact hn1
+  have hsel : selectPiv C (some rc) P.outer.code (respUnprot S (some (0 :: shortPiv seq))) =
+      .ok { piv := 0 :: shortPiv seq, gen := C.recipientId,
+            seqno := some (beToNat (0 :: shortPiv seq)), rid := rc } := by
+    simp [selectPiv]
+  have hrp' := recvParams_of_fields (tb := E.tagBytes) (B := C) (rid := some rc)
+    (o := { P.outer with opts := opts' })
+    (by simp [hcode, responseCode_isResponse]) hopt hu (idsAcceptable_resp hSC _) hsel rfl hlen hn0
+  have hd : E.dec C.recipientKey nonce (aad C.algValue rc.kid rc.piv) P.outer.payload = some pt := by
+    rw [hpay, ← hSC.key, ← hSC.alg, hk, hp]; exact E.correct _ _ _ _
+  have hnr := (protect_response_shape h).1
+  rw [unprotect_of_dec_some hrp' hd (parsePlaintext_buildPlaintext hpt)]
+  simp [finishUnprotect, observeResult, hnr, hobs]
+
+/-- A request whose (redundant) KID and KID context were stripped from the OSCORE option is
+still accepted by the context it is handed to, and yields the same message: absent fields are
+not checked (`unprotected.pop(COSE_KID, self.recipient_id)`), and neither is in the AAD. -/
+theorem C11_request_without_kid_accepted (E : AEAD) {A B : Ctx} (hA : A.wf) (hAB : Sends A B)
+    {seq : Nat} {m : Msg} {P : Protected} (h : protect E A seq m none = .ok P)
+    (opts' : List Opt) (opt' : Bytes) (hopt : findOpt 9 opts' = some opt')
+    (hobs : findOpt 6 opts' = findOpt 6 m.opts)
+    (hu : uncompress opt' =
+      some { piv := some (shortPiv seq), kid := none, kidContext := none, group := false }) :
+    unprotect E B none { P.outer with opts := opts' } = unprotect E B none P.outer := by
+  obtain ⟨pt, nonce, hpt, hn, hpay, hobs0, hrp⟩ := recv_request (B := B) hA hAB h
+  obtain ⟨hreq, hseq, _⟩ := protect_request_shape h
+  obtain ⟨_, _, _, hcode0, _, _, _, _, _, hlen, _⟩ := recvParams_ok_inv hrp
+  have hcode : P.outer.code = 2 ∨ P.outer.code = 5 := by
+    obtain ⟨_, _, _, _, _, _, _, _, _, hP⟩ := protect_request_shape h
+    rw [hP]; exact outerCode_request hreq
+  have hn' : constructNonce B.ivBytes B.commonIv (shortPiv seq) B.recipientId = some nonce := by
+    rw [← hAB.iv, ← hAB.civ, ← hAB.id, constructNonce_shortPiv hseq]; exact hn
+  have hsel : selectPiv B none P.outer.code
+      { piv := some (shortPiv seq), kid := none, kidContext := none, group := false } =
+      .ok { piv := shortPiv seq, gen := B.recipientId, seqno := some (beToNat (shortPiv seq)),
+            rid := { kid := B.recipientId, piv := shortPiv seq, canReuse := true,
+                     style := P.outer.code } } := by
+    simp [selectPiv, hcode]
+  have hrp' := recvParams_of_fields (tb := E.tagBytes) (B := B) (rid := none)
+    (o := { P.outer with opts := opts' }) (by simpa using hcode0) hopt hu
+    (by simp [idsAcceptable]) hsel rfl hlen hn'
+  have hd : E.dec B.recipientKey nonce (aad A.algValue A.senderId (shortPiv seq)) P.outer.payload
+      = some pt := by rw [hpay, ← hAB.key]; exact E.correct _ _ _ _
+  have hd' : E.dec B.recipientKey nonce (aad B.algValue B.recipientId (shortPiv seq))
+      P.outer.payload = some pt := by rw [← hAB.alg, ← hAB.id]; exact hd
+  rw [unprotect_of_dec_some hrp' hd' (parsePlaintext_buildPlaintext hpt),
+    unprotect_of_dec_some hrp hd (parsePlaintext_buildPlaintext hpt)]
+  simp [finishUnprotect, hobs, hobs0, hAB.id, beToNat_shortPiv]
+
+-- ## Non-vacuity: the hypotheses are satisfiable, and the model computes ------------------------
+
+/-- the AEAD laws have a model (the instance the harness runs the real code with) -/
+example : AEAD := transparentAead
+
+def exA : Ctx :=
+  { algValue := 10, ivBytes := 13, senderId := [1], recipientId := [2, 3], idContext := some [55],
+    senderKey := [11, 12], recipientKey := [21, 22],
+    commonIv := [0, 1, 2, 3, 4, 5, 6, 7, 8, 9, 10, 11, 12], responsesSendKid := false }
+def exB : Ctx :=
+  { exA with senderId := [2, 3], recipientId := [1], senderKey := [21, 22], recipientKey := [11, 12] }
+/-- GET with Uri-Host, Observe: 0, Uri-Port, Uri-Path, Content-Format and a payload -/
+def exMsg : Msg :=
+  { code := 1, opts := [(3, [104]), (6, []), (7, [22, 51]), (11, [97, 98]), (12, [50])],
+    payload := [1, 2, 3] }
+def exResp : Msg := { code := 69, opts := [(12, [0])], payload := [104, 105] }
+
+def okOf {α : Type} : Except Err α → Option α
+  | .ok a => some a
+  | .error _ => none
+def errOf {α : Type} : Except Err α → Option Err
+  | .ok _ => none
+  | .error e => some e
+
+example : exA.wf :=
+  ⟨by decide, by decide, by decide, by decide, by decide, by intro c h; cases h; decide⟩
+example : exB.wf :=
+  ⟨by decide, by decide, by decide, by decide, by decide, by intro c h; cases h; decide⟩
+example : Sends exA exB ∧ Sends exB exA :=
+  ⟨⟨rfl, rfl, rfl, rfl, rfl, rfl⟩, ⟨rfl, rfl, rfl, rfl, rfl, rfl⟩⟩
+example : (reqUnprot exA 300).sendable := reqUnprot_sendable
+  ⟨by decide, by decide, by decide, by decide, by decide, by intro c h; cases h; decide⟩ (by decide)
+
+/-- the protected request: FETCH, only Uri-Host / Observe / OSCORE outside (Uri-Port is dropped
+by this implementation), option `1a 012c 01 37 01` = n=2,k,h ‖ PIV 300 ‖ ctx ‖ kid -/
+def exProtected : Option Protected := okOf (protect transparentAead exA 300 exMsg none)
+
+example : exProtected.map (fun P => (P.outer.code, P.outer.opts, P.rid, P.seq)) =
+    some (5, [(3, [104]), (6, []), (9, [26, 1, 44, 1, 55, 1])],
+      { kid := [1], piv := [1, 44], canReuse := false, style := 5 }, 301) := by decide +kernel
+
+/-- round trip on the concrete request: Uri-Host/Uri-Port stay outside, Observe 0 is kept -/
+example : (exProtected.bind fun P => okOf (unprotect transparentAead exB none P.outer)) =
+    some ({ code := 1, opts := [(11, [97, 98]), (12, [50])], observe := some 0,
+            payload := [1, 2, 3] },
+          { kid := [1], piv := [1, 44], canReuse := true, style := 5 }) := by decide +kernel
+
+def exRs : ReqId := { kid := [1], piv := [1, 44], canReuse := true, style := 5 }
+def exRc : ReqId := { kid := [1], piv := [1, 44], canReuse := false, style := 5 }
+def exRx : ReqId := { kid := [1], piv := [1, 45], canReuse := false, style := 5 }
+def exFirst : Option Protected := okOf (protect transparentAead exB 7 exResp (some exRs))
+def exLater : Option Protected := okOf (protect transparentAead exB 7 exResp (some exRc))
+
+/-- a response reusing the request nonce has an empty OSCORE option and consumes no sequence
+number; a later one carries its own Partial IV -/
+example :
+    exFirst.map (fun P => (P.outer.code, P.outer.opts, P.seq)) = some (69, [(9, [])], 7) ∧
+    exLater.map (fun P => (P.outer.code, P.outer.opts, P.seq)) = some (69, [(9, [1, 7])], 8) := by
+  decide +kernel
+
+/-- both come back at the client … -/
+example :
+    (exFirst.bind fun P => okOf (unprotect transparentAead exA (some exRc) P.outer)) =
+      some ({ code := 69, opts := [(12, [0])], observe := none, payload := [104, 105] }, exRc) ∧
+    (exLater.bind fun P => okOf (unprotect transparentAead exA (some exRc) P.outer)) =
+      some ({ code := 69, opts := [(12, [0])], observe := none, payload := [104, 105] }, exRc) := by
+  decide +kernel
+
+/-- … but not with the identifiers of request 301 instead of request 300 -/
+example :
+    (exFirst.bind fun P => errOf (unprotect transparentAead exA (some exRx) P.outer)) =
+      some .protectionInvalid ∧
+    (exLater.bind fun P => errOf (unprotect transparentAead exA (some exRx) P.outer)) =
+      some .protectionInvalid := by decide +kernel
+
+/-- manipulated OSCORE options on the concrete request: PIV 301 instead of 300, wrong KID,
+wrong ID context, a lone context-hint flag, a reserved Partial-IV length, the group flag -/
+example :
+    (exProtected.bind fun P => errOf (unprotect transparentAead exB none
+      { P.outer with opts := [(9, [26, 1, 45, 1, 55, 1])] })) = some .protectionInvalid ∧
+    (exProtected.bind fun P => errOf (unprotect transparentAead exB none
+      { P.outer with opts := [(9, [26, 1, 44, 1, 55, 9])] })) = some .protectionInvalid ∧
+    (exProtected.bind fun P => errOf (unprotect transparentAead exB none
+      { P.outer with opts := [(9, [26, 1, 44, 1, 56, 1])] })) = some .protectionInvalid ∧
+    (exProtected.bind fun P => errOf (unprotect transparentAead exB none
+      { P.outer with opts := [(9, [16])] })) = some .decodeError ∧
+    (exProtected.bind fun P => errOf (unprotect transparentAead exB none
+      { P.outer with opts := [(9, [14, 0, 0, 0, 0, 1, 44, 1])] })) = some .decodeError ∧
+    (exProtected.bind fun P => errOf (unprotect transparentAead exB none
+      { P.outer with opts := [(9, [58, 1, 44, 1, 55, 1])] })) = some .decodeError ∧
+    (exProtected.bind fun P => okOf (unprotect transparentAead exB none
+      { P.outer with opts := [(6, []), (9, [2, 1, 44])] })).isSome = true := by decide +kernel
+
+/-- the hypothesis of the `_partial` ciphertext clauses is satisfiable: a ciphertext with one
+flipped bit is not an encryption of anything under the same key, nonce and AAD -/
+example : ∀ pt', (tEnc [11, 12] [7] [8] [1, 2, 3]).set 3 13 ≠ transparentAead.enc [11, 12] [7] [8] pt' := by
+  intro pt' h
+  have hc := transparentAead.correct [11, 12] [7] [8] pt'
+  rw [← h] at hc
+  have hnone : transparentAead.dec [11, 12] [7] [8] ((tEnc [11, 12] [7] [8] [1, 2, 3]).set 3 13) = none := by
+    decide +kernel
+  rw [hnone] at hc
+  cases hc
+
+/-- … while a re-encryption of another plaintext is a *different* ciphertext that is accepted
+(the witness against the unrestricted ciphertext clause) -/
+example : tEnc [11, 12] [7] [8] [1, 2, 4] ≠ tEnc [11, 12] [7] [8] [1, 2, 3] ∧
+    transparentAead.dec [11, 12] [7] [8] (tEnc [11, 12] [7] [8] [1, 2, 4]) = some [1, 2, 4] := by
+  decide +kernel
 
 end Aiocoap.Oscore.Prot
